@@ -703,9 +703,17 @@ fn mutate(stage: &str, mutn: &str, mut v: Vec<u8>, rng: &mut StdRng) -> Vec<u8> 
         "stray_1" => v.extend_from_slice(&[0u8]),
         "stray_3" => v.extend_from_slice(&[0u8, 0, 1]),
         "stray_7" => v.extend_from_slice(&[0u8, 0, 0, 0, 0, 0, 2]),
-        "next_len_2p30" => v.extend_from_slice(&(1u64 << 30).to_be_bytes()),
-        "next_len_2p63" => v.extend_from_slice(&(1u64 << 63).to_be_bytes()),
-        "next_len_max" => v.extend_from_slice(&u64::MAX.to_be_bytes()),
+        // the complete header of a next frame (length marker and type byte: the decoder judges a header once
+        // both are there) announcing more than the limit
+        "next_len_2p30" | "next_len_2p63" | "next_len_max" => {
+            let len = match mutn {
+                "next_len_2p30" => 1u64 << 30,
+                "next_len_2p63" => 1u64 << 63,
+                _ => u64::MAX,
+            };
+            v.extend_from_slice(&len.to_be_bytes());
+            v.push(v.get(8).copied().unwrap_or(4));
+        }
         "len_2p32" => set_len(&mut v, 1 << 32),
         "len_2p40" => set_len(&mut v, 1 << 40),
         "len_2p61" => set_len(&mut v, 1 << 61),
@@ -736,7 +744,30 @@ fn mutate(stage: &str, mutn: &str, mut v: Vec<u8>, rng: &mut StdRng) -> Vec<u8> 
 }
 
 /// runs one stage on `input`; returns (outcome, outlen, eq-with-valid-decoding)
-fn run_stage(stage: &str, input: &[u8], valid: &[u8]) -> (&'static str, usize, bool) {
+/// what a stateful decoding object is fed before the input of the case (its answer is not judged here: the
+/// same input is a case of its own on a fresh object)
+fn spoil(d: &dyn Decompress, prior: &str, valid: &[u8]) {
+    let bad: Vec<u8> = match prior {
+        "after_corrupt" => {
+            // damaged in the middle and at the end (check sums), so that a good part is consumed first
+            let mut v = valid.to_vec();
+            let n = v.len();
+            if n > 0 {
+                v[n / 2] ^= 0x5a;
+                v[n - 1] ^= 0xff;
+                if n > 12 {
+                    v[n * 3 / 4] ^= 0x81;
+                }
+            }
+            v
+        }
+        "after_short" => valid[..valid.len() * 2 / 3].to_vec(),
+        _ => return,
+    };
+    let _ = catch_unwind(AssertUnwindSafe(|| d.decompress(Bytes::from(bad)).map(|b| b.len())));
+}
+
+fn run_stage(stage: &str, input: &[u8], valid: &[u8], prior: &str) -> (&'static str, usize, bool) {
     fn res<T: PartialEq>(r: std::thread::Result<Result<T, String>>, reference: Option<T>, len: impl Fn(&T) -> usize) -> (&'static str, usize, bool) {
         match r {
             Ok(Ok(v)) => ("ok", len(&v), reference.map(|r| r == v).unwrap_or(true)),
@@ -807,12 +838,16 @@ fn run_stage(stage: &str, input: &[u8], valid: &[u8]) -> (&'static str, usize, b
         }
         "gzip" | "zlib" | "zstd" | "lz4" | "brotli" => {
             let (_, d) = comp_for(stage).unwrap();
+            spoil(d.as_ref(), prior, valid);
             let r = catch_unwind(AssertUnwindSafe(|| d.decompress(Bytes::copy_from_slice(input)).map_err(|e| e.to_string())));
             res(r, None, |v| v.len())
         }
         _ => {
             // the subscriber's composition: [decompress] -> [unbatch] -> decode (StringCodec)
             let d = comp_for(stage).map(|x| x.1);
+            if let Some(d) = &d {
+                spoil(d.as_ref(), prior, valid);
+            }
             let batched = stage.ends_with("_batch") || stage == "sub_batch";
             let run = |b: &[u8]| -> Result<Vec<String>, String> {
                 let mut bytes = Bytes::copy_from_slice(b);
@@ -858,10 +893,11 @@ fn cmd_decode_child(args: &[String]) {
         }
         let mark = alloc_mark();
         let t = std::time::Instant::now();
-        let (outcome, outlen, eq) = run_stage(stage, &input, &valid);
+        let prior = c["prior"].as_str().unwrap_or("fresh");
+        let (outcome, outlen, eq) = run_stage(stage, &input, &valid, prior);
         let alloc = alloc_peak_since(mark);
         let mut o = out.lock();
-        writeln!(o, "{}", json!({"done": i, "stage": stage, "mut": mutn, "size": size, "inlen": input.len(), "outlen": outlen,
+        writeln!(o, "{}", json!({"done": i, "stage": stage, "mut": mutn, "size": size, "prior": prior, "inlen": input.len(), "outlen": outlen,
             "outcome": outcome, "eq": eq, "alloc": alloc, "ms": t.elapsed().as_millis() as u64})).unwrap();
         o.flush().unwrap();
     }
@@ -902,7 +938,7 @@ fn cmd_decode(args: &[String]) {
             // the child died inside case `started`: that is an abort (allocation failure, stack overflow, ...)
             let i = started.unwrap_or(next);
             let c = &cases[i.min(cases.len() - 1)];
-            log.emit("stage", json!({"case": i + 1, "stage": c["stage"], "mut": c["mut"], "size": c["size"], "inlen": 0, "outlen": 0,
+            log.emit("stage", json!({"case": i + 1, "stage": c["stage"], "mut": c["mut"], "size": c["size"], "prior": c["prior"].as_str().unwrap_or("fresh"), "inlen": 0, "outlen": 0,
                 "outcome": "abort", "eq": false, "alloc": 0, "status": format!("{:?}", out.status)}));
             next = i + 1;
         } else if next < cases.len() && started.is_none() && out.status.success() && String::from_utf8_lossy(&out.stdout).lines().count() == 0 {
